@@ -40,10 +40,11 @@ Inductive mcell := MA (a : nat) | MF (fd : fdef).
 (* mi: the INT cells — cells bound (var x = <int_shaped>) to names that may be assigned to at level 6 *)
 Record morph := { mm : list mcell; mv : list (nat * list nat); mf : list (nat * (fdef * env));
                   mc : list (nat * nat); mi : list nat;
-                  mar : list (nat * list nat) }.   (* mar: the ARRAYS — (ar, l): array object ar is the vector l *)
+                  mar : list (nat * list nat);
+                  mrc : list (nat * list nat) }.   (* mrc: the RECORDS — (r, l): record object r is the vector l *)   (* mar: the ARRAYS — (ar, l): array object ar is the vector l *)
 
 Definition mget (m : morph) (c : nat) : option mcell := nth_error (mm m) c.
-Definition msnoc (m : morph) (x : mcell) : morph := {| mm := mm m ++ [x]; mv := mv m; mf := mf m; mc := mc m; mi := mi m; mar := mar m |}.
+Definition msnoc (m : morph) (x : mcell) : morph := {| mm := mm m ++ [x]; mv := mv m; mf := mf m; mc := mc m; mi := mi m; mar := mar m; mrc := mrc m |}.
 
 (* the value relation: a is the image of the cell c, or a copy of the function c holds *)
 Definition vrel (m : morph) (c a : nat) : Prop := mget m c = Some (MA a) \/ In (a, c) (mc m).
@@ -75,6 +76,7 @@ Variable ftab : list nat.
 Variable TL : list ident.
 Variable FS : fsigs.
 Variable cp : bool.       (* are copies of function objects in the fragment *)
+Variable rc : bool.       (* are nil records in the fragment (level 8) *)
 
 Definition fun_addr (fd : fdef) (addr : nat) : Prop :=
   exists k kd, kd <> KTop /\ nth_error AF k = Some (kd, fd) /\ addr = nth (nstd + k) ftab 0%nat.
@@ -93,6 +95,8 @@ Definition cell_rel (m : morph) (v : cellval) (hc : hcell) : Prop :=
   | CFun fd cenv, HFun vec addr => fun_rel m fd cenv vec addr
   | (CInt _ | CBool _), HInt z => val_rel v z
   | CArr (Some ar), HVec l => In (ar, l) (mar m)
+  | CRec (Some r), HVec l => In (r, l) (mrc m)
+  | CRec None, HNil => True
   | _, _ => False
   end.
 
@@ -128,12 +132,18 @@ Record MS (m : morph) (st : state) (h : list hcell) : Prop := {
   ms_arr : forall ar l, In (ar, l) (mar m) ->
            exists elems, nth_error (arrs st) ar = Some elems /\ Forall2 (vrel m) elems l;
   ms_arrmi : forall ar elems, nth_error (arrs st) ar = Some elems -> Forall (fun c => In c (mi m)) elems;
-  ms_noarr : cp = false -> mar m = []
+  ms_noarr : cp = false -> mar m = [];
+  (* records: like arrays, over the record objects *)
+  ms_rec : forall r l, In (r, l) (mrc m) ->
+           exists flds, nth_error (recs st) r = Some flds /\ Forall2 (vrel m) flds l;
+  ms_recmi : forall r flds, nth_error (recs st) r = Some flds -> Forall (fun c => In c (mi m)) flds;
+  ms_norec : cp = false -> mrc m = [];
+  ms_nonil : rc = false -> forall c, nth_error (cells st) c <> Some (CRec None)
 }.
 
 Definition ext (m m' : morph) : Prop :=
   (exists l, mm m' = mm m ++ l) /\ (exists l, mv m' = mv m ++ l) /\ (exists l, mf m' = mf m ++ l) /\
-  (exists l, mc m' = mc m ++ l) /\ (exists l, mi m' = mi m ++ l) /\ (exists l, mar m' = mar m ++ l).
+  (exists l, mc m' = mc m ++ l) /\ (exists l, mi m' = mi m ++ l) /\ (exists l, mar m' = mar m ++ l) /\ (exists l, mrc m' = mrc m ++ l).
 
 Ltac ext_solve := unfold ext; simpl; repeat split; first [exists []; now rewrite app_nil_r | eexists; reflexivity].
 
@@ -142,14 +152,15 @@ Proof. intros m. ext_solve. Qed.
 
 Lemma ext_trans : forall a b c, ext a b -> ext b c -> ext a c.
 Proof.
-  intros a b c ((l1 & E1) & (v1 & F1) & (w1 & G1) & (x1 & I1) & (y1 & J1) & (z1 & K1)) ((l2 & E2) & (v2 & F2) & (w2 & G2) & (x2 & I2) & (y2 & J2) & (z2 & K2)).
-  split; [|split; [|split; [|split; [|split]]]].
+  intros a b c ((l1 & E1) & (v1 & F1) & (w1 & G1) & (x1 & I1) & (y1 & J1) & (z1 & K1) & (u1 & M1)) ((l2 & E2) & (v2 & F2) & (w2 & G2) & (x2 & I2) & (y2 & J2) & (z2 & K2) & (u2 & M2)).
+  split; [|split; [|split; [|split; [|split; [|split]]]]].
   - exists (l1 ++ l2). rewrite E2, E1. now rewrite app_assoc.
   - exists (v1 ++ v2). rewrite F2, F1. now rewrite app_assoc.
   - exists (w1 ++ w2). rewrite G2, G1. now rewrite app_assoc.
   - exists (x1 ++ x2). rewrite I2, I1. now rewrite app_assoc.
   - exists (y1 ++ y2). rewrite J2, J1. now rewrite app_assoc.
   - exists (z1 ++ z2). rewrite K2, K1. now rewrite app_assoc.
+  - exists (u1 ++ u2). rewrite M2, M1. now rewrite app_assoc.
 Qed.
 
 Lemma ext_fcl : forall m m' x, ext m m' -> In x (mf m) -> In x (mf m').
@@ -174,7 +185,10 @@ Lemma ext_mi : forall m m' x, ext m m' -> In x (mi m) -> In x (mi m').
 Proof. intros m m' x (_ & _ & _ & _ & (l & E) & _) H. rewrite E. apply in_or_app. auto. Qed.
 
 Lemma ext_mar : forall m m' x, ext m m' -> In x (mar m) -> In x (mar m').
-Proof. intros m m' x (_ & _ & _ & _ & _ & (l & E)) H. rewrite E. apply in_or_app. auto. Qed.
+Proof. intros m m' x (_ & _ & _ & _ & _ & (l & E) & _) H. rewrite E. apply in_or_app. auto. Qed.
+
+Lemma ext_mrc : forall m m' x, ext m m' -> In x (mrc m) -> In x (mrc m').
+Proof. intros m m' x (_ & _ & _ & _ & _ & _ & (l & E)) H. rewrite E. apply in_or_app. auto. Qed.
 
 Lemma vrel_ext : forall m m' c a, ext m m' -> vrel m c a -> vrel m' c a.
 Proof. intros m m' c a He [H | H]; [left; eapply ext_nth; eauto | right; eapply ext_cp; eauto]. Qed.
@@ -192,9 +206,10 @@ Qed.
 
 Lemma cell_rel_ext : forall m m' v hc, ext m m' -> cell_rel m v hc -> cell_rel m' v hc.
 Proof.
-  intros m m' v hc He H. destruct v as [z|b|fd ce|[ar|]|r], hc; simpl in *; auto.
+  intros m m' v hc He H. destruct v as [z|b|fd ce|[ar|]|[r|]], hc; simpl in *; auto.
   - eapply fun_rel_ext; eauto.
   - eapply ext_mar; eauto.
+  - eapply ext_mrc; eauto.
 Qed.
 
 Lemma cp_ok_mono : forall m m' cs cs' h h' a c, ext m m' ->
@@ -246,11 +261,11 @@ Qed.
 (* the cell of a value holds an int, a bool or a function, never nil *)
 Lemma vrel_kind : forall m st h c a, MS m st h -> vrel m c a ->
   exists v, nth_error (cells st) c = Some v /\
-    match v with CInt _ | CBool _ | CFun _ _ | CArr (Some _) => True | _ => False end.
+    match v with CInt _ | CBool _ | CFun _ _ | CArr (Some _) | CRec _ => True | _ => False end.
 Proof.
   intros m st h c a HMS [Hm | Hm].
   - destruct (ms_rel _ _ _ HMS c a Hm) as (v & hc & Hc & _ & Hv & _). exists v. split; [exact Hc|].
-    destruct v as [z|b|fd ce|[ar|]|r], hc; simpl in Hv; try contradiction; exact I.
+    destruct v as [z|b|fd ce|[ar|]|[r|]], hc; simpl in Hv; try contradiction; exact I.
   - destruct (ms_cp _ _ _ HMS a c Hm) as (fd & cenv & vec & addr & Hc & _). exists (CFun fd cenv). split; [exact Hc | exact I].
 Qed.
 
@@ -267,16 +282,28 @@ Proof.
     unfold get_cell in Hg. rewrite Hc in Hg. inversion Hg; subst v. contradiction.
 Qed.
 
-(* == / != with nil on two references of which one is nil does not apply *)
+(* == / != with nil on two references of which one is nil does not apply: no nil cell exists, or the operator is
+   another one, or the right operand's cell holds an int *)
 Lemma nil_cmp_mapped : forall op m st h c1 a1 c2 a2, MS m st h ->
   vrel m c1 a1 -> vrel m c2 a2 ->
+  (rc = false \/ (op <> Eq /\ op <> Ne) \/
+   exists w, nth_error (cells st) c2 = Some w /\ match w with CInt _ | CBool _ => True | _ => False end) ->
   nil_cmp op (get_cell st c1) (get_cell st c2) = None.
 Proof.
-  intros op m st h c1 a1 c2 a2 HMS H1 H2.
+  intros op m st h c1 a1 c2 a2 HMS H1 H2 Hnil.
   destruct (vrel_kind _ _ _ _ _ HMS H1) as (v1 & Hc1 & Hv1).
   destruct (vrel_kind _ _ _ _ _ HMS H2) as (v2 & Hc2 & Hv2).
   unfold get_cell. rewrite Hc1, Hc2.
-  destruct v1 as [z1|b1|fd1 ce1|[ar1|]|r1]; try contradiction; destruct v2 as [z2|b2|fd2 ce2|[ar2|]|r2]; try contradiction; reflexivity.
+  destruct Hnil as [Hrc | [[Ho1 Ho2] | (w & Hw & Hk)]].
+  - pose proof (ms_nonil _ _ _ HMS Hrc c1) as N1. pose proof (ms_nonil _ _ _ HMS Hrc c2) as N2.
+    destruct v1 as [z1|b1|fd1 ce1|[ar1|]|[r1|]]; try contradiction; try (exfalso; apply N1; exact Hc1);
+    destruct v2 as [z2|b2|fd2 ce2|[ar2|]|[r2|]]; try contradiction; try (exfalso; apply N2; exact Hc2); reflexivity.
+  - destruct v1 as [z1|b1|fd1 ce1|[ar1|]|[r1|]]; try contradiction;
+    destruct v2 as [z2|b2|fd2 ce2|[ar2|]|[r2|]]; try contradiction; try reflexivity;
+    destruct op; try reflexivity; congruence.
+  - rewrite Hc2 in Hw. inversion Hw; subst w.
+    destruct v1 as [z1|b1|fd1 ce1|[ar1|]|[r1|]]; try contradiction;
+    destruct v2 as [z2|b2|fd2 ce2|[ar2|]|[r2|]]; try contradiction; reflexivity.
 Qed.
 
 Lemma MS_addr_lt : forall m st h c a, MS m st h -> vrel m c a -> (a < length h)%nat.
@@ -293,7 +320,25 @@ Lemma vrel_arr : forall m st h c a ar, MS m st h -> vrel m c a -> nth_error (cel
 Proof.
   intros m st h c a ar HMS [Hm | Hm] Hc.
   - destruct (ms_rel _ _ _ HMS c a Hm) as (v & hc & Hc' & Hh & Hr & _). rewrite Hc in Hc'. inversion Hc'; subst v.
-    destruct hc as [ | | l]; simpl in Hr; try contradiction. exists l. split; [exact Hh | exact Hr].
+    destruct hc as [ | | l | ]; simpl in Hr; try contradiction. exists l. split; [exact Hh | exact Hr].
+  - destruct (ms_cp _ _ _ HMS a c Hm) as (fd & cenv & vec & addr & Hc' & _). rewrite Hc in Hc'. discriminate Hc'.
+Qed.
+
+Lemma vrel_rec : forall m st h c a r, MS m st h -> vrel m c a -> nth_error (cells st) c = Some (CRec (Some r)) ->
+  exists l, nth_error h a = Some (HVec l) /\ In (r, l) (mrc m).
+Proof.
+  intros m st h c a r HMS [Hm | Hm] Hc.
+  - destruct (ms_rel _ _ _ HMS c a Hm) as (v & hc & Hc' & Hh & Hr & _). rewrite Hc in Hc'. inversion Hc'; subst v.
+    destruct hc as [ | | l | ]; simpl in Hr; try contradiction. exists l. split; [exact Hh | exact Hr].
+  - destruct (ms_cp _ _ _ HMS a c Hm) as (fd & cenv & vec & addr & Hc' & _). rewrite Hc in Hc'. discriminate Hc'.
+Qed.
+
+Lemma vrel_nil : forall m st h c a, MS m st h -> vrel m c a -> nth_error (cells st) c = Some (CRec None) ->
+  nth_error h a = Some HNil.
+Proof.
+  intros m st h c a HMS [Hm | Hm] Hc.
+  - destruct (ms_rel _ _ _ HMS c a Hm) as (v & hc & Hc' & Hh & Hr & _). rewrite Hc in Hc'. inversion Hc'; subst v.
+    destruct hc; simpl in Hr; try contradiction. exact Hh.
   - destruct (ms_cp _ _ _ HMS a c Hm) as (fd & cenv & vec & addr & Hc' & _). rewrite Hc in Hc'. discriminate Hc'.
 Qed.
 
@@ -305,7 +350,7 @@ Lemma vrel_fun : forall m st h c a fd cenv, MS m st h -> vrel m c a -> nth_error
 Proof.
   intros m st h c a fd cenv HMS [Hm | Hm] Hc.
   - destruct (ms_rel _ _ _ HMS c a Hm) as (v & hc & Hc' & Hh & Hr & Hrec). rewrite Hc in Hc'. inversion Hc'; subst v.
-    destruct hc as [ | vec addr | ]; simpl in Hr; try contradiction.
+    destruct hc as [ | vec addr | | ]; simpl in Hr; try contradiction.
     exists vec, addr. split; [exact Hh|]. right. split; [exact Hr | apply Hrec; reflexivity].
   - destruct (ms_cp _ _ _ HMS a c Hm) as (fd' & cenv' & vec & addr & Hc' & Hh & Hd). rewrite Hc in Hc'. inversion Hc'; subst fd' cenv'.
     exists vec, addr. split; [exact Hh | exact Hd].
@@ -336,6 +381,21 @@ Proof.
   pose proof (ms_arrmi _ _ _ HMS ar elems Hn) as H. rewrite Forall_forall in *. intros c Hc. eapply ext_mi; eauto.
 Qed.
 
+Lemma rec_keep : forall m m' st h (recs' : list (list nat)), MS m st h -> ext m m' -> mrc m' = mrc m -> recs' = recs st ->
+  forall r l, In (r, l) (mrc m') -> exists flds, nth_error recs' r = Some flds /\ Forall2 (vrel m') flds l.
+Proof.
+  intros m m' st h recs' HMS He Em Ea r l Hin. rewrite Em in Hin. subst recs'.
+  destruct (ms_rec _ _ _ HMS r l Hin) as (flds & A & B). exists flds. split; [exact A|].
+  eapply Forall2_imp; [|exact B]. intros x y Hxy. eapply vrel_ext; eauto.
+Qed.
+
+Lemma recmi_keep : forall m m' st h (recs' : list (list nat)), MS m st h -> ext m m' -> recs' = recs st ->
+  forall r flds, nth_error recs' r = Some flds -> Forall (fun c => In c (mi m')) flds.
+Proof.
+  intros m m' st h recs' HMS He Ea r flds Hn. subst recs'.
+  pose proof (ms_recmi _ _ _ HMS r flds Hn) as H. rewrite Forall_forall in *. intros c Hc. eapply ext_mi; eauto.
+Qed.
+
 Definition frec (c : nat) (v : cellval) : list (nat * (fdef * env)) :=
   match v with CFun fd cenv => [(c, (fd, cenv))] | _ => [] end.
 
@@ -343,11 +403,12 @@ Definition frec (c : nat) (v : cellval) : list (nat * (fdef * env)) :=
 Lemma MS_alloc_gen : forall m st h v hc c st' pad,
   MS m st h -> cell_rel m v hc -> alloc st v = (c, st') ->
   (forall fd cenv k, v = CFun fd cenv -> nth_error AF k = Some (KNamed, fd) -> lookup (fd_name fd) cenv = Some c) ->
-  let m' := {| mm := mm m ++ [MA (length h + length pad)]; mv := mv m; mf := mf m ++ frec c v; mc := mc m; mi := mi m; mar := mar m |} in
+  (rc = false -> v <> CRec None) ->
+  let m' := {| mm := mm m ++ [MA (length h + length pad)]; mv := mv m; mf := mf m ++ frec c v; mc := mc m; mi := mi m; mar := mar m; mrc := mrc m |} in
   MS m' st' (h ++ pad ++ [hc]) /\ vrel m' c (length h + length pad) /\ ext m m' /\
   out st' = out st.
 Proof.
-  intros m st h v hc c st' pad HMS Hv Ha Hself m'. unfold alloc in Ha. inversion Ha; subst c st'; clear Ha.
+  intros m st h v hc c st' pad HMS Hv Ha Hself Hnn m'. unfold alloc in Ha. inversion Ha; subst c st'; clear Ha.
   set (a0 := (length h + length pad)%nat) in *.
   assert (He : ext m m') by ext_solve.
   assert (Hnew : forall c a, (length (mm m) <= c)%nat -> mget m' c = Some (MA a) -> c = length (mm m) /\ a = a0).
@@ -409,6 +470,13 @@ Proof.
     + exact (arr_keep _ _ _ _ _ HMS He eq_refl eq_refl).
     + exact (arrmi_keep _ _ _ _ _ HMS He eq_refl).
     + exact (ms_noarr _ _ _ HMS).
+    + exact (rec_keep _ _ _ _ _ HMS He eq_refl eq_refl).
+    + exact (recmi_keep _ _ _ _ _ HMS He eq_refl).
+    + exact (ms_norec _ _ _ HMS).
+    + intros Hrc c Hc. destruct (Nat.lt_ge_cases c (length (cells st))) as [Hlt | Hge].
+      * rewrite nth_error_app1 in Hc by exact Hlt. exact (ms_nonil _ _ _ HMS Hrc c Hc).
+      * rewrite nth_error_app2 in Hc by exact Hge. destruct (c - length (cells st))%nat as [|d]; simpl in Hc;
+          [inversion Hc as [E]; exact (Hnn Hrc E) | destruct d; discriminate Hc].
   - left. unfold mget, m'. simpl. rewrite <- Hlen, nth_error_app2, Nat.sub_diag by lia. reflexivity.
   - exact He.
   - reflexivity.
@@ -422,7 +490,8 @@ Proof.
   intros m st h v z c st' HMS Hv Ha.
   assert (Hs : forall fd cenv k, v = CFun fd cenv -> nth_error AF k = Some (KNamed, fd) -> lookup (fd_name fd) cenv = Some c)
     by (intros fd cenv k E; subst v; simpl in Hv; contradiction).
-  pose proof (MS_alloc_gen m st h v (HInt z) c st' [] HMS (cell_rel_int m v z Hv) Ha Hs) as H.
+  assert (Hnn : rc = false -> v <> CRec None) by (intros _ E; subst v; simpl in Hv; contradiction).
+  pose proof (MS_alloc_gen m st h v (HInt z) c st' [] HMS (cell_rel_int m v z Hv) Ha Hs Hnn) as H.
   simpl in H. rewrite Nat.add_0_r in H.
   assert (Ef : frec c v = []) by (destruct v; simpl in Hv; try contradiction; reflexivity).
   rewrite Ef, app_nil_r in H. destruct H as (A & B & _ & C).
@@ -480,8 +549,14 @@ Proof.
   - intros v0 l Hin. rewrite nth_error_list_upd_other; [apply (ms_vec _ _ _ HMS _ _ Hin)|].
     intros ->. destruct (ms_rel _ _ _ HMS cl v0 Hl) as (v' & hc & _ & Hh & Hr & _).
     rewrite (ms_vec _ _ _ HMS _ _ Hin) in Hh. inversion Hh; subst hc.
-    destruct v' as [z0|b0|fd0 ce0|[ar0|]|r0]; simpl in Hr; try contradiction.
-    (* the left cell holds an array: there are none without copies, and an int cell holds none *)
+    destruct v' as [z0|b0|fd0 ce0|[ar0|]|[r0|]]; simpl in Hr; try contradiction.
+    (* the left cell holds an array / a record: there are none without copies, and an int cell holds none *)
+    2:{ destruct Hsafe as [Hcp | Hmi].
+        + rewrite (ms_norec _ _ _ HMS Hcp) in Hr. destruct Hr.
+        + destruct (ms_int _ _ _ HMS cl Hmi) as (w & Hw & Hk).
+          destruct (ms_rel _ _ _ HMS cl v0 Hl) as (v'' & hc'' & Hc'' & Hh'' & Hr'' & _).
+          rewrite Hw in Hc''. inversion Hc''; subst v''. rewrite (ms_vec _ _ _ HMS _ _ Hin) in Hh''. inversion Hh''; subst hc''.
+          destruct w; simpl in Hr''; contradiction. }
     destruct Hsafe as [Hcp | Hmi].
     + rewrite (ms_noarr _ _ _ HMS Hcp) in Hr. destruct Hr.
     + destruct (ms_int _ _ _ HMS cl Hmi) as (w & Hw & Hk).
@@ -511,6 +586,13 @@ Proof.
   - exact (arr_keep _ _ _ _ _ HMS (ext_refl m) eq_refl eq_refl).
   - exact (arrmi_keep _ _ _ _ _ HMS (ext_refl m) eq_refl).
   - exact (ms_noarr _ _ _ HMS).
+  - exact (rec_keep _ _ _ _ _ HMS (ext_refl m) eq_refl eq_refl).
+  - exact (recmi_keep _ _ _ _ _ HMS (ext_refl m) eq_refl).
+  - exact (ms_norec _ _ _ HMS).
+  - intros Hrc c Hc. destruct (Nat.eq_dec c cl) as [-> | Hne].
+    + assert (Hlt : (cl < length (cells st))%nat) by (destruct (ms_rel _ _ _ HMS cl al Hl) as (? & ? & Hx & _); apply nth_error_Some; congruence).
+      rewrite nth_error_list_upd_same in Hc by exact Hlt. inversion Hc; subst v. contradiction.
+    + rewrite nth_error_list_upd_other in Hc by congruence. exact (ms_nonil _ _ _ HMS Hrc c Hc).
 Qed.
 
 (* a run of sibling functions: k new cells (the evaluator's closures over the common environment e'), their
@@ -523,7 +605,7 @@ Lemma MS_run : forall m st h H' (fds : list fdef) (e : env) newvecs newcps,
   let e' := func_env fds c0 e in
   (forall x c, lookup x e' = Some c -> is_fname FS x = false) ->
   let m' := {| mm := mm m ++ map MA (seq (length h) (length fds)); mv := mv m ++ newvecs;
-               mf := mf m ++ combine (seq c0 (length fds)) (map (fun f => (f, e')) fds); mc := mc m ++ newcps; mi := mi m; mar := mar m |} in
+               mf := mf m ++ combine (seq c0 (length fds)) (map (fun f => (f, e')) fds); mc := mc m ++ newcps; mi := mi m; mar := mar m; mrc := mrc m |} in
   (forall j fd, nth_error fds j = Some fd ->
      exists v ad addr, nth_error H' (length h + j) = Some (HFun v addr) /\ In (v, ad) newvecs /\
        fun_addr fd addr /\
@@ -621,6 +703,13 @@ Proof.
   - exact (arr_keep _ _ _ _ _ HMS He eq_refl eq_refl).
   - exact (arrmi_keep _ _ _ _ _ HMS He eq_refl).
   - exact (ms_noarr _ _ _ HMS).
+  - exact (rec_keep _ _ _ _ _ HMS He eq_refl eq_refl).
+  - exact (recmi_keep _ _ _ _ _ HMS He eq_refl).
+  - exact (ms_norec _ _ _ HMS).
+  - intros Hrc c Hc. simpl in Hc. destruct (Nat.lt_ge_cases c (length (cells st))) as [Hlt | Hge].
+    + rewrite nth_error_app1 in Hc by exact Hlt. exact (ms_nonil _ _ _ HMS Hrc c Hc).
+    + rewrite nth_error_app2 in Hc by exact Hge. rewrite nth_error_map in Hc.
+      destruct (nth_error fds (c - length (cells st))); discriminate Hc.
 Qed.
 
 (* one closure (a function expression): a new cell, a new function object after a new vector *)
@@ -629,12 +718,12 @@ Lemma MS_closure : forall m st h fd (e : env) addrs addr c st',
   fun_addr fd addr -> (forall x c, lookup x e = Some c -> is_fname FS x = false) ->
   (forall k, nth_error AF k <> Some (KNamed, fd)) ->
   Forall2 (fun y a => exists c, lookup y e = Some c /\ vrel m c a /\ (mem_id y ivs = true -> In c (mi m))) (fvs_fd TL fd) addrs ->
-  let m' := {| mm := mm m ++ [MA (S (length h))]; mv := mv m ++ [(length h, addrs)]; mf := mf m ++ [(c, (fd, e))]; mc := mc m; mi := mi m; mar := mar m |} in
+  let m' := {| mm := mm m ++ [MA (S (length h))]; mv := mv m ++ [(length h, addrs)]; mf := mf m ++ [(c, (fd, e))]; mc := mc m; mi := mi m; mar := mar m; mrc := mrc m |} in
   MS m' st' (h ++ [HVec addrs; HFun (length h) addr]) /\ vrel m' c (S (length h)) /\ ext m m' /\
   out st' = out st.
 Proof.
   intros m st h fd e addrs addr c st' HMS Ha Hfa Hnf Hnn HF m'.
-  set (m1 := {| mm := mm m; mv := mv m ++ [(length h, addrs)]; mf := mf m; mc := mc m; mi := mi m; mar := mar m |}).
+  set (m1 := {| mm := mm m; mv := mv m ++ [(length h, addrs)]; mf := mf m; mc := mc m; mi := mi m; mar := mar m; mrc := mrc m |}).
   assert (He1 : ext m m1) by ext_solve.
   assert (HMS1 : MS m1 st (h ++ [HVec addrs])).
   { constructor.
@@ -656,14 +745,18 @@ Proof.
     - apply (ms_int _ _ _ HMS).
     - exact (arr_keep _ _ _ _ _ HMS He1 eq_refl eq_refl).
     - exact (arrmi_keep _ _ _ _ _ HMS He1 eq_refl).
-    - exact (ms_noarr _ _ _ HMS). }
+    - exact (ms_noarr _ _ _ HMS).
+    - exact (rec_keep _ _ _ _ _ HMS He1 eq_refl eq_refl).
+    - exact (recmi_keep _ _ _ _ _ HMS He1 eq_refl).
+    - exact (ms_norec _ _ _ HMS).
+    - exact (ms_nonil _ _ _ HMS). }
   assert (Hrel : cell_rel m1 (CFun fd e) (HFun (length h) addr)).
   { simpl. split; [exact Hfa|]. split; [exact Hnf|]. exists addrs. split.
     - unfold m1. simpl. apply in_or_app. right. left. reflexivity.
     - eapply Forall2_imp; [|exact HF]. intros y a (c0 & H1 & H2). exists c0. split; [exact H1|]. exact H2. }
   assert (Hs : forall fd0 cenv k, CFun fd e = CFun fd0 cenv -> nth_error AF k = Some (KNamed, fd0) -> lookup (fd_name fd0) cenv = Some c).
   { intros fd0 cenv k E Hk. inversion E; subst. exfalso. eapply Hnn; eauto. }
-  destruct (MS_alloc_gen m1 st (h ++ [HVec addrs]) (CFun fd e) (HFun (length h) addr) c st' [] HMS1 Hrel Ha Hs) as (A & B & _ & C).
+  destruct (MS_alloc_gen m1 st (h ++ [HVec addrs]) (CFun fd e) (HFun (length h) addr) c st' [] HMS1 Hrel Ha Hs (fun _ E => ltac:(discriminate E))) as (A & B & _ & C).
   simpl in A, B. rewrite app_length in A, B. simpl in A, B. rewrite Nat.add_0_r in A, B.
   replace (length h + 1)%nat with (S (length h)) in A, B by lia.
   rewrite <- app_assoc in A. simpl in A.
@@ -676,7 +769,7 @@ Lemma MS_copy : forall m st h c fd cenv vec addr pad,
   MS m st h -> cp = true -> nth_error (cells st) c = Some (CFun fd cenv) ->
   ((exists kidx, nth_error AF kidx = Some (KTop, fd) /\ addr = nth (nstd + kidx) ftab 0%nat /\ cenv = []) \/
    (fun_rel m fd cenv vec addr /\ In (c, (fd, cenv)) (mf m))) ->
-  let m' := {| mm := mm m; mv := mv m; mf := mf m; mc := mc m ++ [((length h + length pad)%nat, c)]; mi := mi m; mar := mar m |} in
+  let m' := {| mm := mm m; mv := mv m; mf := mf m; mc := mc m ++ [((length h + length pad)%nat, c)]; mi := mi m; mar := mar m; mrc := mrc m |} in
   MS m' st (h ++ pad ++ [HFun vec addr]) /\ vrel m' c (length h + length pad) /\ ext m m'.
 Proof.
   intros m st h c fd cenv vec addr pad HMS Hcp Hc Hd m'.
@@ -703,13 +796,17 @@ Proof.
     + exact (arr_keep _ _ _ _ _ HMS He eq_refl eq_refl).
     + exact (arrmi_keep _ _ _ _ _ HMS He eq_refl).
     + exact (ms_noarr _ _ _ HMS).
+    + exact (rec_keep _ _ _ _ _ HMS He eq_refl eq_refl).
+    + exact (recmi_keep _ _ _ _ _ HMS He eq_refl).
+    + exact (ms_norec _ _ _ HMS).
+    + exact (ms_nonil _ _ _ HMS).
   - right. unfold m'. simpl. apply in_or_app. right. left. reflexivity.
 Qed.
 
 (* a cell that holds an int is recorded as an int cell *)
 Lemma MS_addint : forall m st h c v, MS m st h -> nth_error (cells st) c = Some v ->
   match v with CInt _ | CBool _ => True | _ => False end ->
-  let m' := {| mm := mm m; mv := mv m; mf := mf m; mc := mc m; mi := mi m ++ [c]; mar := mar m |} in
+  let m' := {| mm := mm m; mv := mv m; mf := mf m; mc := mc m; mi := mi m ++ [c]; mar := mar m; mrc := mrc m |} in
   MS m' st h /\ ext m m' /\ In c (mi m').
 Proof.
   intros m st h c v HMS Hc Hv m'.
@@ -732,12 +829,16 @@ Proof.
   - exact (arr_keep _ _ _ _ _ HMS He eq_refl eq_refl).
   - exact (arrmi_keep _ _ _ _ _ HMS He eq_refl).
   - exact (ms_noarr _ _ _ HMS).
+  - exact (rec_keep _ _ _ _ _ HMS He eq_refl eq_refl).
+  - exact (recmi_keep _ _ _ _ _ HMS He eq_refl).
+  - exact (ms_norec _ _ _ HMS).
+  - exact (ms_nonil _ _ _ HMS).
 Qed.
 
 (* a new array object over element cells that are int cells with images l *)
 Lemma MS_newarr : forall m st h elems l,
   MS m st h -> cp = true -> Forall2 (vrel m) elems l -> Forall (fun c => In c (mi m)) elems ->
-  let m' := {| mm := mm m; mv := mv m; mf := mf m; mc := mc m; mi := mi m; mar := mar m ++ [(length (arrs st), l)] |} in
+  let m' := {| mm := mm m; mv := mv m; mf := mf m; mc := mc m; mi := mi m; mar := mar m ++ [(length (arrs st), l)]; mrc := mrc m |} in
   MS m' (snd (new_arr st elems)) h /\ ext m m' /\ In (length (arrs st), l) (mar m').
 Proof.
   intros m st h elems l HMS Hcp HF Hmi m'.
@@ -768,6 +869,50 @@ Proof.
       * inversion Hn; subst el. exact Hmi.
       * destruct d; discriminate Hn.
   - intros Hx. congruence.
+  - exact (rec_keep _ _ _ _ _ HMS He eq_refl eq_refl).
+  - exact (recmi_keep _ _ _ _ _ HMS He eq_refl).
+  - exact (ms_norec _ _ _ HMS).
+  - exact (ms_nonil _ _ _ HMS).
+Qed.
+
+(* a new record object over field cells that are int cells with images l *)
+Lemma MS_newrec : forall m st h flds l,
+  MS m st h -> cp = true -> Forall2 (vrel m) flds l -> Forall (fun c => In c (mi m)) flds ->
+  let m' := {| mm := mm m; mv := mv m; mf := mf m; mc := mc m; mi := mi m; mar := mar m; mrc := mrc m ++ [(length (recs st), l)] |} in
+  MS m' (snd (new_rec st flds)) h /\ ext m m' /\ In (length (recs st), l) (mrc m').
+Proof.
+  intros m st h flds l HMS Hcp HF Hmi m'.
+  assert (He : ext m m') by ext_solve.
+  split; [|split; [exact He | unfold m'; simpl; apply in_or_app; right; left; reflexivity]].
+  constructor; cbn [new_rec snd cells arrs recs].
+  - apply (ms_len _ _ _ HMS).
+  - intros c0 a Hm. destruct (ms_rel _ _ _ HMS c0 a Hm) as (v0 & hc & A & B & D & E).
+    exists v0, hc. split; [exact A|]. split; [exact B|]. split; [eapply cell_rel_ext; eauto | exact E].
+  - apply (ms_inj _ _ _ HMS).
+  - apply (ms_fun _ _ _ HMS).
+  - apply (ms_vec _ _ _ HMS).
+  - apply (ms_fcl _ _ _ HMS).
+  - apply (ms_fself _ _ _ HMS).
+  - intros a c0 Hin. eapply cp_ok_mono; [exact He | | | apply (ms_cp _ _ _ HMS _ _ Hin)]; auto.
+  - apply (ms_nocp _ _ _ HMS).
+  - apply (ms_int _ _ _ HMS).
+  - exact (arr_keep _ _ _ _ _ HMS He eq_refl eq_refl).
+  - exact (arrmi_keep _ _ _ _ _ HMS He eq_refl).
+  - exact (ms_noarr _ _ _ HMS).
+  - intros r l0 Hin. unfold m' in Hin. simpl in Hin. apply in_app_or in Hin. destruct Hin as [Hin | [Hin | []]].
+    + destruct (ms_rec _ _ _ HMS r l0 Hin) as (el & A & B). exists el. split.
+      * rewrite nth_error_app1; [exact A | apply nth_error_Some; congruence].
+      * eapply Forall2_imp; [|exact B]. intros x y Hxy. eapply vrel_ext; eauto.
+    + inversion Hin; subst r l0. exists flds. split.
+      * rewrite nth_error_app2, Nat.sub_diag by lia. reflexivity.
+      * eapply Forall2_imp; [|exact HF]. intros x y Hxy. eapply vrel_ext; eauto.
+  - intros r el Hn. destruct (Nat.lt_ge_cases r (length (recs st))) as [Hlt | Hge].
+    + rewrite nth_error_app1 in Hn by exact Hlt. apply (ms_recmi _ _ _ HMS r el Hn).
+    + rewrite nth_error_app2 in Hn by exact Hge. destruct (r - length (recs st))%nat as [|d]; simpl in Hn.
+      * inversion Hn; subst el. exact Hmi.
+      * destruct d; discriminate Hn.
+  - intros Hx. congruence.
+  - exact (ms_nonil _ _ _ HMS).
 Qed.
 
 End Rel.
@@ -1061,12 +1206,12 @@ Lemma env_match_run : forall G IV fc gp gl m e ce sc L stk fds (st : state) (h :
                          self_is (fc_self fc) (fd_name f) = false /\ mem_id (fd_name f) IV = false) ->
   length (mm m) = length (cells st) ->
   let k := length fds in
-  env_match G IV fc gp gl {| mm := mm m ++ map MA (seq (length h) k); mv := mv m ++ nv; mf := mf m ++ nf; mc := mc m ++ ncp; mi := mi m; mar := mar m |}
+  env_match G IV fc gp gl {| mm := mm m ++ map MA (seq (length h) k); mv := mv m ++ nv; mf := mf m ++ nf; mc := mc m ++ ncp; mi := mi m; mar := mar m; mrc := mrc m |}
             (func_env fds (length (cells st)) e) (func_cenv fds (L + 1) ce)
             (map fd_name fds ++ sc) (L + Z.of_nat k) (rev (seq (length h) k) ++ stk).
 Proof.
   intros G IV fc gp gl m e ce sc L stk fds st h nv nf ncp Hem Hnd Hnew Hlen k.
-  set (m' := {| mm := mm m ++ map MA (seq (length h) k); mv := mv m ++ nv; mf := mf m ++ nf; mc := mc m ++ ncp; mi := mi m; mar := mar m |}).
+  set (m' := {| mm := mm m ++ map MA (seq (length h) k); mv := mv m ++ nv; mf := mf m ++ nf; mc := mc m ++ ncp; mi := mi m; mar := mar m; mrc := mrc m |}).
   assert (He : ext m m') by ext_solve.
   destruct Hem as (H1 & H2 & H3 & H4 & H5 & H6 & H7 & H8).
   assert (Hne : forall y, mem_id y sc = true -> forall f, In f fds -> fd_name f <> y).
